@@ -569,7 +569,7 @@ func (Prop) RunCase(c *lib.Case) {
 			g.class = "wire-" + g.class
 		}
 		if c.Rng.Intn(2) == 0 {
-			rebuild(g, params{32, 256})
+			rebuild(g, params{32, 256}, c.Rng)
 		}
 		runGenerated(c, r, g, allCombos)
 	case "degenerate":
@@ -604,20 +604,70 @@ func build(m map[string]string, pr params, rng *rand.Rand, style int) ldiff.Diff
 		for _, e := range els {
 			d.Set(e)
 		}
-	default: // chunks
+	case 2: // chunks
 		for len(els) > 0 {
 			n := 1 + rng.Intn(len(els))
 			d.Set(els[:n]...)
 			els = els[n:]
 		}
+	default: // grown through a history that ends in exactly these contents: heads updated, extra ids
+		// inserted and removed again, absent ids removed (also twice) - "any two head indexes",
+		// not only freshly filled ones (added after seeded change C07-1 was missed)
+		var seqs [][]func()
+		for _, e := range els {
+			e := e
+			var q []func()
+			if rng.Intn(2) == 0 {
+				old := e
+				old.Head = "old-" + e.Head
+				q = append(q, func() { d.Set(old) })
+			}
+			if rng.Intn(6) == 0 {
+				q = append(q, func() { d.Set(e) }, func() { _ = d.RemoveId(e.Id) })
+			}
+			q = append(q, func() { d.Set(e) })
+			seqs = append(seqs, q)
+		}
+		extras := 1 + rng.Intn(3+len(els)/2)
+		if extras > 40 {
+			extras = 40
+		}
+		for i := 0; i < extras; i++ {
+			id := ldiffkit.RandomId(rng)
+			if _, in := m[id]; in {
+				continue
+			}
+			var q []func()
+			if rng.Intn(3) > 0 {
+				q = append(q, func() { d.Set(ldiff.Element{Id: id, Head: "x"}) })
+			}
+			q = append(q, func() { _ = d.RemoveId(id) })
+			if rng.Intn(2) == 0 {
+				q = append(q, func() { _ = d.RemoveId(id) })
+			}
+			seqs = append(seqs, q)
+		}
+		for len(seqs) > 0 {
+			i := rng.Intn(len(seqs))
+			seqs[i][0]()
+			seqs[i] = seqs[i][1:]
+			if len(seqs[i]) == 0 {
+				seqs[i] = seqs[len(seqs)-1]
+				seqs = seqs[:len(seqs)-1]
+			}
+		}
 	}
 	return d
 }
 
-func rebuild(g *pairCase, pr params) {
+func rebuild(g *pairCase, pr params, rng *rand.Rand) {
 	g.pr = pr
-	g.local.idx = build(g.local.m, pr, nil, 0)
-	g.remote.idx = build(g.remote.m, pr, nil, 0)
+	ls, rs := 0, 0
+	if rng != nil {
+		ls, rs = rng.Intn(4), rng.Intn(4)
+	}
+	g.local.idx = build(g.local.m, pr, rng, ls)
+	g.remote.idx = build(g.remote.m, pr, rng, rs)
 }
 
 // guarded runs f and turns a panic inside repository code into a violation
@@ -764,11 +814,11 @@ func genRandom(rng *rand.Rand, n int, class string) *pairCase {
 	}
 	lm, rm, desc := derive(rng, ids)
 	pr := randomParams(rng)
-	style := rng.Intn(3)
+	style := rng.Intn(4)
 	desc["build_style"] = style
 	return &pairCase{class: class, desc: desc, pr: pr,
 		local:  &side{m: lm, idx: build(lm, pr, rng, style)},
-		remote: &side{m: rm, idx: build(rm, pr, rng, rng.Intn(3))}}
+		remote: &side{m: rm, idx: build(rm, pr, rng, rng.Intn(4))}}
 }
 
 func genSkewed(rng *rand.Rand, n int) *pairCase {
@@ -847,6 +897,6 @@ func genSkewed(rng *rand.Rand, n int) *pairCase {
 	lm, rm, desc := derive(rng, ids)
 	desc["clusters"] = clDesc
 	return &pairCase{class: "skewed", desc: desc, pr: pr,
-		local:  &side{m: lm, idx: build(lm, pr, rng, rng.Intn(3))},
-		remote: &side{m: rm, idx: build(rm, pr, rng, rng.Intn(3))}}
+		local:  &side{m: lm, idx: build(lm, pr, rng, rng.Intn(4))},
+		remote: &side{m: rm, idx: build(rm, pr, rng, rng.Intn(4))}}
 }
